@@ -288,15 +288,15 @@ void h_read(void)
 
 /* ------------------------------------------------------------------ C08/C09: over-long lines
  * An echoed reply text can be far longer than the 1024-byte line buffer of iauth_send (the
- * server relays what a service said).  With a 1500-byte argument the formatter must stay
+ * server relays what a service said).  With a 1100-byte argument the formatter must stay
  * inside its buffer (pointer checks) and still write exactly one line of at most 1024 bytes. */
-static char long_arg[1501];
+static char long_arg[1101];
 void h_send_overlong(void)
 {
     unsigned i, nl = 0;
     req = mk_request();
-    for (i = 0; i < 1500; i++) long_arg[i] = 'A';
-    long_arg[1500] = '\0';
+    for (i = 0; i < 1100; i++) long_arg[i] = 'A';
+    long_arg[1100] = '\0';
     req->client = 7; req->remote_port = 1234;
     req->text_addr[0] = '1'; req->text_addr[1] = '.'; req->text_addr[2] = '2'; req->text_addr[3] = '\0';
     g_out_len = 0;
